@@ -76,6 +76,19 @@ def wire_oracle(ix: Index, scn: dict) -> list[Violation]:
             out.append(Violation("undecodable-write", "noise" if noise else "plaintext", f"the independent strict decoder rejected the client's byte stream: {ev[4]['err']}"))
             return out
     client_types = set(t.client_types())
+    # a batch of well-formed client messages handed to a live session is written, not refused
+    for op in ix.ops:
+        if op.do == "send" and op.s1 is not None and not op.ok and not op.cancelled and op.conn is not None:
+            msgs = op.args["msgs"]
+            if any(m[0] not in t.by_name for m in msgs):
+                continue  # (the refused-batch family: a message class without a type id)
+            if noise and any(len(p_) > NOISE_MAX_PAYLOAD for _t, p_ in expected_frames(msgs)):
+                continue
+            T = ix.closed_seq.get(op.conn)
+            if (T is None or T > op.s1) and op.conn in ix.connected_seq and ix.connected_seq[op.conn] < op.s0:
+                err = op.err or {}
+                out.append(Violation("valid-batch-refused", str(err.get("cls")), f"{op.actor}[{op.i}] send of {[(m[0]) for m in msgs][:4]} (largest payload {max(len(p_) for _t, p_ in expected_frames(msgs))} bytes) on a live session failed with {err.get('cls')}: {str(err.get('text'))[:100]}"))
+                return out
     for c in ix.conns:
         for fd in ix.conn_fds(c):
             writes = ix.tr_writes.get(fd, [])
